@@ -244,21 +244,50 @@ class Function:
             work.extend(self.bmap[l].succs)
         return False
 
+    def _short_circuit(self, pred_label, label):
+        """`a && b` / `a || b` at -O0 meet in a block `%p = phi i1 [const, A], [%b, B]; br i1 %p, T, F`.  Coming from A the
+        branch is decided: returns the only successor that can follow (else None).  Used to keep dominance queries from
+        following the infeasible path A -> join -> (other side)."""
+        b = self.bmap[label]
+        real = [i for i in b.insts if not (i.op == "call" and i.callee and i.callee.startswith("llvm.dbg"))]
+        if len(real) != 2 or real[0].op != "phi" or real[1].op != "br" or len(real[1].succs) != 2:
+            return None
+        phi, br = real
+        if not phi.text.startswith("phi i1") or phi.res not in br.ops:
+            return None
+        for val, lab in re.findall(r'\[ *([^,\]]+), *%([-\w.$"]+) *\]', phi.text):
+            if lab.strip('"') == pred_label and val.strip() in ("true", "false"):
+                return br.succs[0] if val.strip() == "true" else br.succs[1]
+        return None
+
     def edge_dominates(self, src_label, dst_label, target_inst):
         """Does the CFG edge src->dst dominate target_inst (every path from entry to target uses that edge)?
-        Computed by deleting the edge and testing reachability of target from entry."""
+        Computed by deleting the edge and testing reachability of target from entry; short-circuit joins are threaded."""
         entry = self.blocks[0].label
         seen = {entry}
         work = [entry]
+        tgt = target_inst.block.label
         while work:
             l = work.pop()
             for s in self.bmap[l].succs:
                 if l == src_label and s == dst_label:
                     continue
+                t = self._short_circuit(l, s) if s != tgt else None
+                if t is not None:
+                    # pass through the join block without making it (or its other side) reachable
+                    if s == src_label and t == dst_label:
+                        continue
+                    key = (s, t)
+                    if key not in seen:
+                        seen.add(key)
+                        if t not in seen:
+                            seen.add(t)
+                            work.append(t)
+                    continue
                 if s not in seen:
                     seen.add(s)
                     work.append(s)
-        if target_inst.block.label not in seen:
+        if tgt not in seen:
             return True
         return False
 
